@@ -351,6 +351,13 @@ class SymInt(object):
             return self
         if self.hi <= 0:
             return -self
+        if self.lin is not None and self.lin[0]:
+            # |x| == |-x|: build from the sign-normalised linear form (lowest atom positive), so |a-b| and |b-a| are one term
+            first = min(self.lin[0])
+            if self.lin[0][first] < 0:
+                m = -self
+                if isinstance(m, SymInt) and m.lin is not None and m.lin[0] and m.lin[0][min(m.lin[0])] > 0:
+                    return ite(m < 0, -m, m)
         return ite(self < 0, -self, self)
 
     def __truediv__(self, o):
@@ -840,7 +847,7 @@ class SymBytes(object):
     __rmul__ = __mul__
 
     def __eq__(self, o):
-        if not isinstance(o, (builtins.bytes, bytearray, SymBytes)):
+        if not isinstance(o, (builtins.bytes, bytearray, SymBytes, SymByteArray)):
             return False
         o = tuple(o)
         if len(o) != len(self.e):
@@ -1016,10 +1023,33 @@ class _BytesShim(object):
 sx_bytes = _BytesShim()
 
 
+class SymByteArray(list):
+    "mutable stand-in for a bytearray holding symbolic bytes"
+    def __eq__(self, o):
+        if isinstance(o, (SymBytes, builtins.bytes, bytearray, SymByteArray)):
+            return sym_bytes_eq(SymBytes(list(self)), SymBytes(list(o)) if not isinstance(o, SymBytes) else o)
+        return list.__eq__(self, o)
+
+    def __ne__(self, o):
+        r = self.__eq__(o)
+        return (not r) if isinstance(r, bool) else ~r
+    __hash__ = None
+
+    def __add__(self, o):
+        return SymByteArray(list(self) + list(o))
+
+    def __radd__(self, o):
+        return SymByteArray(list(o) + list(self))
+
+    def __getitem__(self, i):
+        r = list.__getitem__(self, i)
+        return SymByteArray(r) if isinstance(i, slice) else r
+
+
 def sx_bytearray(x=b''):
     x = list(x) if not isinstance(x, builtins.int) else [0] * x
     if any(isinstance(v, SymInt) for v in x):
-        return list(x)        # a mutable list stands for the bytearray
+        return SymByteArray(x)        # a mutable list stands for the bytearray
     return bytearray(x)
 
 
